@@ -53,18 +53,18 @@ ODD = ["\x00", " ", "\x0b", "\x0c", "\x85", "\U0001F600", "�", " ", "\x1c",
 def gen_texts(ctx, fmt):
     rng = ctx.rng("c01", fmt)
     alpha = ALPHA[fmt]
-    L = 2 if ctx.tier == "quick" else 3
+    L = 3 if ctx.tier == "quick" else 4
     texts = []
     for n in range(L + 1):
         for toks in itertools.product(alpha, repeat=n):
             texts.append("".join(toks))
     exhaustive = len(texts)
     # sampled longer token sequences
-    for _ in range(ctx.n(2500, 60000)):
+    for _ in range(ctx.n(5000, 60000)):
         n = rng.randrange(3, 9)
         texts.append("".join(rng.choice(alpha) for _ in range(n)))
     # tokens mixed with arbitrary code points
-    for _ in range(ctx.n(800, 20000)):
+    for _ in range(ctx.n(2500, 20000)):
         n = rng.randrange(1, 10)
         parts = []
         for _ in range(n):
@@ -117,7 +117,7 @@ def finding_of(fmt, text, msg):
 
 def run(ctx):
     out = Outcome()
-    out.rule = ("per format: every token sequence over the format's alphabet up to length 2 (quick) / 3 (thorough) exhaustively, "
+    out.rule = ("per format: every token sequence over the format's alphabet up to length 3 (quick) / 4 (thorough) exhaustively, "
                 "plus seeded random sequences of 3-8 tokens and sequences mixing tokens with arbitrary code points; "
                 "non-trivial = the parse contains at least one entity or junk entry; distinct = distinct (format, canonical parse)")
     # regex semantics first: everything below rests on it
